@@ -206,6 +206,7 @@ func labWalk(seed int64, momentums int, htlc bool, enforced bool, stalls bool, t
 type ledgerFamilyOpts struct {
 	locks       bool // also replay the Locks.tla behaviours (C10)
 	bridge      bool // also replay the Bridge.tla behaviours (C10, C09)
+	tokens      bool // also replay the Token.tla behaviours (C01)
 	prop        string
 	invariants  string // invariants of LedgerTrace evaluated at every event
 	repoPattern string // tests of vm/embedded/tests traced in the quick tier
@@ -299,6 +300,9 @@ func ledgerFamily(run *core.Run, o ledgerFamilyOpts) {
 	}
 	if o.bridge {
 		runs = append(runs, bridgeCheck(run, o.prop)...)
+	}
+	if o.tokens {
+		runs = append(runs, tokenCheck(run, o.prop)...)
 	}
 	run.Set("lab_walks", walkStats)
 	run.Set("lab_walk_methods_accepted", methods)
